@@ -229,55 +229,22 @@ func main() {
 		}
 	}
 
-	// ---- 1. exhaustive: every string up to maxLen, every chunking, sizes 1..4 ----
-	maxGo, maxCoq := 5, 4
-	sample5 := 1500 // length-5 cases also sent to Coq (sampled)
+	// ---- long random streams, random chunking (including empty reads), random sizes ----
+	// (generated first, emitted interleaved with the exhaustive cases so that the
+	// Coq shards, which are cut by case count, carry similar loads)
+	nr, maxLen := 160, 300
 	if a.Thorough() {
-		maxGo, maxCoq = 6, 5
-		sample5 = 0
+		nr, maxLen = 4000, 600
 	}
-	swept := 0
-	var rec func(prefix []byte, n int)
-	rec = func(prefix []byte, n int) {
-		if len(prefix) == n {
-			s := string(prefix)
-			nmask := 1
-			if n > 1 {
-				nmask = 1 << (n - 1)
-			}
-			for mask := 0; mask < nmask; mask++ {
-				for size := 1; size <= 4; size++ {
-					toCoq := n <= maxCoq
-					if !toCoq && n == maxCoq+1 && sample5 > 0 && rng.Intn(200000) < sample5 {
-						toCoq = true
-					}
-					run(size, chunking(s, mask), toCoq, fmt.Sprintf("exhaustive/len%d", n))
-					swept++
-				}
-			}
-			return
-		}
-		for _, b := range alphabet {
-			rec(append(prefix, b), n)
-		}
+	type rcase struct {
+		size   int
+		script []string
 	}
-	for n := 0; n <= maxGo; n++ {
-		rec(nil, n)
-	}
-	out.Extra["exhaustive_cases_checked_by_oracle"] = swept
-	out.Extra["exhaustive_alphabet"] = "\\n \\r a 0xC3 0xA9"
-	out.Extra["exhaustive_max_len_oracle"] = maxGo
-	out.Extra["exhaustive_max_len_model"] = maxCoq
-
-	// ---- 2. long random streams, random chunking (including empty reads), random sizes ----
-	nr := 300
-	if a.Thorough() {
-		nr = 6000
-	}
+	var randoms []rcase
 	for i := 0; i < nr; i++ {
-		n := 20 + rng.Intn(400)
-		if rng.Chance(10) {
-			n = 1000 + rng.Intn(2000)
+		n := 20 + rng.Intn(maxLen)
+		if rng.Chance(4) {
+			n = 1000 + rng.Intn(1500)
 		}
 		b := make([]byte, n)
 		for k := range b {
@@ -312,8 +279,61 @@ func main() {
 		case 1:
 			size = 4096
 		}
-		run(size, script, true, "random")
+		randoms = append(randoms, rcase{size, script})
 	}
+
+	// ---- exhaustive: every string up to maxGo, every chunking, sizes 1..4 ----
+	// The Go oracle judges all of them; the model replays all up to fullCoq and
+	// a sample of the longer ones.
+	maxGo, fullCoq := 5, 3
+	sample := map[int]int{4: 25, 5: 1} // percent of the cases of that length replayed by the model
+	every := 50                         // one random case per this many model cases
+	if a.Thorough() {
+		maxGo, fullCoq = 6, 5
+		sample = map[int]int{6: 1}
+		every = 55
+	}
+	swept, sinceRandom := 0, 0
+	var rec func(prefix []byte, n int)
+	rec = func(prefix []byte, n int) {
+		if len(prefix) == n {
+			s := string(prefix)
+			nmask := 1
+			if n > 1 {
+				nmask = 1 << (n - 1)
+			}
+			for mask := 0; mask < nmask; mask++ {
+				for size := 1; size <= 4; size++ {
+					toCoq := n <= fullCoq || rng.Intn(100) < sample[n]
+					run(size, chunking(s, mask), toCoq, fmt.Sprintf("exhaustive/len%d", n))
+					swept++
+					if toCoq {
+						if sinceRandom++; sinceRandom >= every && len(randoms) > 0 {
+							sinceRandom = 0
+							run(randoms[0].size, randoms[0].script, true, "random")
+							randoms = randoms[1:]
+						}
+					}
+				}
+			}
+			return
+		}
+		for _, b := range alphabet {
+			rec(append(prefix, b), n)
+		}
+	}
+	for n := 0; n <= maxGo; n++ {
+		rec(nil, n)
+	}
+	for _, rc := range randoms {
+		run(rc.size, rc.script, true, "random")
+	}
+	out.Extra["exhaustive_cases_checked_by_oracle"] = swept
+	out.Extra["exhaustive_alphabet"] = "\\n \\r a 0xC3 0xA9"
+	out.Extra["exhaustive_max_len_oracle"] = maxGo
+	out.Extra["exhaustive_max_len_model_all"] = fullCoq
+	out.Extra["exhaustive_model_sample_percent_by_len"] = fmt.Sprint(sample)
+
 	out.Flush("every byte string over {\\n,\\r,a,0xC3,0xA9} up to the stated length x every split into non-empty reads x buffer sizes 1-4, plus long random streams with random reads (some empty) and buffer sizes 1-4096; non-trivial when the stream contains a newline and at least two reads happen", true)
 }
 
